@@ -622,7 +622,10 @@ def build_optimized_tables(
                         break
                 else:
                     ut = UniqueTableReferenceT(
-                        name=f"FE_TF{tensor_n}",
+                        # Include the rule id: with several quadrature rules in one
+                        # kernel the counter alone gives the factor tables of
+                        # different rules the same name
+                        name=f"FE_TF{tensor_n}_Q{quadrature_rule.id()}",
                         values=sub_tbl,
                         ttype="tensor_factor",
                         is_permuted=False,
